@@ -23,9 +23,10 @@ from ..encoding import Component, Name, ModelField, TlvModel, ContentType, Bytes
 from ..encoding.ndn_format_0_3 import DataPacketValue
 
 
-KEY_COMPONENT = Component.from_str('KEY')
-SELF_COMPONENT = Component.from_str('self')
-SIGN_REQ_COMPONENT = Component.from_str('cert-request')
+# immutable: these objects end up in the names handed back to callers
+KEY_COMPONENT = bytes(Component.from_str('KEY'))
+SELF_COMPONENT = bytes(Component.from_str('self'))
+SIGN_REQ_COMPONENT = bytes(Component.from_str('cert-request'))
 
 
 class SecurityV2TypeNumber:
